@@ -8,7 +8,7 @@
 //! `cargo` first on PATH) and compare, so the binding does not rest on this replica alone.
 //!
 //! ops:
-//!  {"op":"gen_project","dir":abs,"files":{rel:text}?, "entry":rel,"out":abs,"keep":bool?}
+//!  {"op":"gen_project","dir":abs,"files":{rel:text}?, "entry":rel,"out":abs,"keep":bool?,"scan_deps":bool?}
 //!     -> {"obs":{"ok":bool,"stage":..,"err":..,"cargo_toml":text,"rs":{rel:text},
 //!                "needs":{"serde","tokio","axum"},"rust_crates":[..decl order..],
 //!                "modules":[{"name","path":[..]}..]}}
@@ -66,7 +66,7 @@ fn as_refusal<T: std::fmt::Debug>(r: &T) -> Option<String> {
 }
 
 /// The body of `prepare_project`, statement by statement (comments quote the original).
-fn prepare_project_replica(entry: &str, out_dir: &str) -> Value {
+fn prepare_project_replica(entry: &str, out_dir: &str, scan_deps: bool) -> Value {
     // let modules = collect_modules(file_path)?;
     let modules = match collect_modules(entry) {
         Ok(m) => m,
@@ -101,11 +101,29 @@ fn prepare_project_replica(entry: &str, out_dir: &str) -> Value {
     codegen.scan_for_async(&main_module.ast);
     codegen.scan_for_web(&main_module.ast);
     codegen.scan_for_list_helpers(&main_module.ast);
+    // Variant "scan_deps" = prepare_project after proposed_fixes/C15_scan_dependency_modules.patch;
+    // the check picks the variant that reproduces what the real CLI writes (calibration probe).
+    if scan_deps {
+        for module in dep_modules {
+            codegen.scan_for_serde(&module.ast);
+            codegen.scan_for_async(&module.ast);
+            codegen.scan_for_web(&module.ast);
+        }
+    }
 
     let needs_serde = codegen.needs_serde();
     let needs_tokio = codegen.needs_tokio();
     let needs_axum = codegen.needs_axum();
-    let rust_crates = collect_rust_crates(&main_module.ast);
+    let mut rust_crates = collect_rust_crates(&main_module.ast);
+    if scan_deps {
+        for module in dep_modules {
+            for crate_name in collect_rust_crates(&module.ast) {
+                if !rust_crates.contains(&crate_name) {
+                    rust_crates.push(crate_name);
+                }
+            }
+        }
+    }
 
     // Setup project generator
     let mut generator = ProjectGenerator::new(out_dir, project_name, true);
@@ -165,7 +183,8 @@ fn op_gen_project(req: &Value) -> Value {
     let _ = fs::remove_dir_all(&out);
     let entry = dir.join(&entry_rel).to_string_lossy().to_string();
     let out2 = out.clone();
-    let r = guarded_timeout(LIMIT_MS, move || prepare_project_replica(&entry, &out2));
+    let scan_deps = req.get("scan_deps").and_then(|x| x.as_bool()).unwrap_or(false);
+    let r = guarded_timeout(LIMIT_MS, move || prepare_project_replica(&entry, &out2, scan_deps));
     let mut obs = match r {
         Ok(v) => v,
         Err(e) => panic_json(e),
